@@ -374,6 +374,7 @@ class ManifestFile:
         self.openpgp_signature = None
         state = ManifestState.DATA
         openpgp_data = ''
+        dash_escaped = True
 
         for line in f:
             if state == ManifestState.DATA:
@@ -389,6 +390,10 @@ class ManifestFile:
                     openpgp_data += line
                 # skip header lines up to the empty line
                 if line.strip():
+                    if line.startswith('NotDashEscaped:'):
+                        # GnuPG extension: the signed text is taken
+                        # literally, '- ' prefixes are part of it
+                        dash_escaped = False
                     continue
                 state = ManifestState.SIGNED_DATA
             elif state == ManifestState.SIGNED_DATA:
@@ -398,7 +403,7 @@ class ManifestFile:
                     state = ManifestState.SIGNATURE
                     continue
                 # dash-escaping, RFC 4880 says any line can suffer from it
-                if line.startswith('- '):
+                if dash_escaped and line.startswith('- '):
                     line = line[2:]
             elif state == ManifestState.SIGNATURE:
                 if verify_openpgp:
